@@ -226,7 +226,7 @@ impl Prop for C03 {
         }
     }
     fn gen(&self, rng: &mut Rng, _tier: Tier, _idx: u64) -> Case {
-        let inst = gen_instance(rng, &GenOpts { max_vars: 5, max_cons: 3, max_removed: 2, max_degree: 3, deps: true, hints: false });
+        let mut inst = gen_instance(rng, &GenOpts { max_vars: 5, max_cons: 3, max_removed: 2, max_degree: 3, deps: true, hints: false });
         let total = gen_state(rng, &inst);
         let mut ids: Vec<u64> = total.iter().map(|t| t.0).collect();
         rng.shuffle(&mut ids);
@@ -237,6 +237,14 @@ impl Prop for C03 {
             let k = rng.usize(nparts + 1);
             if k < nparts {
                 parts[k].push(id);
+                // the history partial_evaluate(x) -> substitute(y := ... x ...) leaves a variable that carries a
+                // recorded value and occurs in functions again; fixing it once more (same value) must remove it
+                if rng.chance(1, 8) {
+                    let val = total.iter().find(|t| t.0 == id).map(|t| t.1);
+                    if let Some(v) = inst.vars.iter_mut().find(|v| v.id == id) {
+                        v.substituted = val;
+                    }
+                }
             }
         }
         let dep_order = if inst.deps.len() >= 2 && rng.chance(1, 2) {
